@@ -52,6 +52,10 @@ fn payload_for(a: &Act) -> Vec<u8> {
     if a.ty == 1 {
         return (a.len as u32).to_be_bytes().to_vec();
     }
+    if a.ty == 2 && a.len == 4 {
+        // an Abort message: its body names a chunk stream id (the timestamp doubles as that id here)
+        return a.ts.to_be_bytes().to_vec();
+    }
     let tag = (a.ty as u32).wrapping_mul(31).wrapping_add(a.msid.wrapping_mul(0x9E3779B1)).wrapping_add(a.ts.wrapping_mul(0x85EBCA6B)).wrapping_add(a.csid);
     pattern(tag, a.len)
 }
@@ -335,6 +339,55 @@ pub fn run(run: &Run) {
             }
             run.count("type_id_scripts", scripts);
         }
+    }
+    // Abort messages naming chunk streams that are in use (no message is in flight on them: sequential sending), on
+    // another chunk stream and on the named one itself; the named stream then continues with compressed headers
+    {
+        let sl = Slice { name: "abort messages naming idle chunk streams", csids: vec![], types: vec![], msids: vec![1], tss: vec![], lens: vec![], setchunks: vec![], init_chunk: 128 };
+        let g = G { slice: sl.clone(), c: Counters::new(&NAMES) };
+        let mut scripts = 0u64;
+        for (x, form) in [(6u32, 1u8), (64, 2), (320, 3)] {
+            for abort_on in [2u32, x] {
+                for follow in [1u8, 2, 3] {
+                    let mut script = vec![
+                        Act { csid: x, form, fmt: 0, ty: 9, msid: 1, ts: 100, len: 3 },
+                        Act { csid: x, form, fmt: 1, ty: 9, msid: 1, ts: 110, len: 3 },
+                    ];
+                    // the abort (type 2, message stream 0) names x
+                    let first_on_2 = abort_on == 2;
+                    script.push(Act { csid: abort_on, form: if abort_on == 2 { 1 } else { form }, fmt: if first_on_2 { 0 } else { 0 }, ty: 2, msid: 0, ts: x, len: 4 });
+                    if abort_on == x {
+                        // back to the media message stream: needs a full header
+                        script.push(Act { csid: x, form, fmt: 0, ty: 9, msid: 1, ts: 120, len: 3 });
+                        script.push(Act { csid: x, form, fmt: 1, ty: 9, msid: 1, ts: 130, len: 3 });
+                    }
+                    let base = if abort_on == x { 130 } else { 110 };
+                    match follow {
+                        1 => script.push(Act { csid: x, form, fmt: 1, ty: 9, msid: 1, ts: base + 10, len: 5 }),
+                        2 => script.push(Act { csid: x, form, fmt: 2, ty: 9, msid: 1, ts: base + 10, len: 3 }),
+                        _ => script.push(Act { csid: x, form, fmt: 3, ty: 9, msid: 1, ts: base + 10, len: 3 }),
+                    }
+                    let mut cur = St { enc: SpecEncoder::new(), de: ChunkDeserializer::new() };
+                    let mut done: Vec<Value> = Vec::new();
+                    for a in script.iter() {
+                        let o = g.step(&cur, a);
+                        ti += o.impl_steps;
+                        tt += 1;
+                        done.push(g.describe(a));
+                        if let Some((sig, d)) = o.viol.into_iter().next() {
+                            run.violation(&format!("{}/after-an-abort-message", sig), &d, json!({"slice": sl.name, "ops": done}));
+                            break;
+                        }
+                        cur = match o.succ.into_iter().next() {
+                            Some(x) => x,
+                            None => break,
+                        };
+                    }
+                    scripts += 1;
+                }
+            }
+        }
+        run.count("abort_message_scripts", scripts);
     }
     // long histories over many chunk stream ids: a message on each of N distinct csids, then compressed headers
     // (fmt 1, 2, 3) on early, middle and late ones (per-connection tables that are bounded or pruned)
